@@ -27,6 +27,14 @@ RAW = {"malloc", "calloc", "realloc", "free", "strdup", "strndup"}
 EXC_TABLE = os.path.join(VERIF, "tables", "c15_raw_alloc_exceptions.json")
 
 
+INLINE = {}             # unit-local static helpers of mem.c whose paths are spliced into the wrappers' (filled by run())
+
+
+def epaths(fn):
+    """paths of a wrapper with its static helpers spliced in and flag locals / compound tests split into atomic tests"""
+    return paths.enumerate_paths(fn, noreturn={"libast_fatal_error"}, inline=INLINE, expand=True)
+
+
 GATE_HELPERS = {}       # predicate helpers that answer the runtime gate: name -> (level, polarity); filled by find_gate_helpers()
 
 
@@ -232,7 +240,7 @@ def returned_local(ret):
 def check_alloc_wrapper(chk, prog, fn, allocator, edit, mem_level, size_desc, pidx):
     """malloc/calloc style wrapper. pidx = dict(file=, line=) parameter indices."""
     loc = fn.loc(fn.body)
-    ps = paths.enumerate_paths(fn, noreturn={"libast_fatal_error"})
+    ps = epaths(fn)
     n = 0
     for p in ps:
         gate, calls, tests, ret, unknown = path_summary(fn, p, mem_level)
@@ -316,7 +324,7 @@ def size_matches(fn, size_arg, alloc_call, desc):
 
 def check_free(chk, prog, fn, mem_level):
     loc = fn.loc(fn.body)
-    ps = paths.enumerate_paths(fn, noreturn={"libast_fatal_error"})
+    ps = epaths(fn)
     ptr_path = "d%d" % fn.params[3]["d"] if len(fn.params) > 3 else None
     n = 0
     for p in ps:
@@ -355,7 +363,7 @@ def check_free(chk, prog, fn, mem_level):
 
 def realloc_table(fn, mem_level, tracked):
     """{(ptr_null, size_zero): outcome} by path enumeration. outcome in {'malloc','realloc','free','none'}"""
-    ps = paths.enumerate_paths(fn, noreturn={"libast_fatal_error"})
+    ps = epaths(fn)
     if tracked:
         ptr_p, size_p = "d%d" % fn.params[3]["d"], "d%d" % fn.params[4]["d"]
     else:
@@ -442,6 +450,9 @@ def run(tier="quick", mktable=False):
     u = prog.units.get("mem.c")
     if u is not None:
         find_gate_helpers(prog, u)
+        INLINE.clear()
+        INLINE.update({g.name: g for g in u.functions.values() if g.static and g.name not in GATE_HELPERS and g.name not in EDITS
+                       and not g.name.startswith("memrec_") and paths.inlinable(g)})
     if u is None:
         raise AnalysisBroken("mem.c not analysed")
     # the memory-debugging level as the header defines it
@@ -462,7 +473,7 @@ def run(tier="quick", mktable=False):
     npaths += check_free(chk, prog, f, mem_level)
     # realloc: grow arm mirrors with chg_var; NULL arm delegates; 0 arm frees
     f = prog.need("spifmem_realloc")
-    ps = paths.enumerate_paths(f, noreturn={"libast_fatal_error"})
+    ps = epaths(f)
     for p in ps:
         gate, calls, tests, ret, unknown = path_summary(f, p, mem_level)
         names = [c[0] for c in calls]
@@ -522,6 +533,20 @@ def run(tier="quick", mktable=False):
             gp = gate_pol(cond)
             if gp is not None and truth == gp[1]:
                 return state | {("gate", gp[0])}
+            if gp is None:
+                # a compound test / a flag local standing for one: the gate holds when every way the test can come out this way
+                # includes it (forget = ptr != NULL && level >= N; if (forget) ..)
+                alts = paths.dnf(cond, truth)
+                lv = None
+                for alt in alts:
+                    here = set()
+                    for c_, t_ in alt:
+                        g_ = gate_pol(c_) if c_ is not cond else None
+                        if g_ is not None and t_ == g_[1]:
+                            here.add(g_[0])
+                    lv = here if lv is None else (lv & here)
+                if lv:
+                    return state | {("gate", l_) for l_ in lv}
             return state
 
         def visit(state, n, blk):
@@ -641,6 +666,9 @@ def run(tier="quick", mktable=False):
         n9 += 1
         slot_d = finds[0]
         rec_d = fn.params[0]["d"]
+        # other pointer locals of the record type: places of the table
+        off_locals = {d_ for d_, vd_ in fn.vardecls.items() if vd_.get("tp") and d_ != slot_d and d_ not in {p_["d"] for p_ in fn.params}
+                      and (vd_.get("t") or "") == (fn.vardecls.get(slot_d) or {}).get("t")}
 
         class RecPos(GhostPos):
             def base_off(self, e):
@@ -652,6 +680,8 @@ def run(tier="quick", mktable=False):
                     return Lin.const(0)
                 if s_.get("k") == "ref" and s_.get("d") == slot_d:
                     return Lin.sym("idx")
+                if s_.get("k") == "ref" and s_.get("rk") == "local" and s_.get("d") in off_locals:
+                    return Lin.sym("o%d" % s_["d"])      # a local that holds another place of the table (last = ptrs + cnt)
                 if s_.get("k") == "bin" and s_.get("op") in ("+", "-") and s_.get("tp"):
                     b0 = self.base_off(s_["ch"][0])
                     k0 = self.lin(s_["ch"][1])
@@ -685,6 +715,7 @@ def run(tier="quick", mktable=False):
                 if x.get("k") in ("un", "assign"):
                     t_ = X.strip(x["ch"][0])
                     if t_.get("k") == "member" and t_.get("n") == "cnt":
+                        cons = self.assign_sym(cons, "removed", Lin.const(1))      # the count changes: a slot may be gone from here on
                         if x.get("k") == "un" and x.get("op") in ("++", "--"):
                             return self.assign_sym(cons, "cnt", Lin.sym("cnt") + (1 if x["op"] == "++" else -1))
                         r_ = self.lin(x["ch"][1]) if x.get("k") == "assign" else None
@@ -699,6 +730,15 @@ def run(tier="quick", mktable=False):
                         return frozenset(cons) | ({Lin.sym("moved") - 1} if ok_ else {Lin.sym("badmove") - 1})
                 if x.get("k") == "assign" and X.strip(x["ch"][0]).get("d") == slot_d:
                     return self.assign_sym(cons, "idx", None)
+                if x.get("k") == "assign" and X.strip(x["ch"][0]).get("d") in off_locals:
+                    return self.assign_sym(cons, "o%d" % X.strip(x["ch"][0])["d"], self.base_off(x["ch"][1]) if x.get("op") == "=" else None)
+                if x.get("k") == "decl":
+                    out_ = cons
+                    for dcl_ in x.get("decls", ()):
+                        if dcl_["d"] in off_locals:
+                            out_ = self.assign_sym(out_, "o%d" % dcl_["d"], self.base_off(dcl_["init"]) if dcl_.get("init") is not None else None)
+                    if out_ is not cons:
+                        return GhostPos.transfer(self, out_, x, blk)
                 return GhostPos.transfer(self, cons, x, blk)
 
             def ptr_fact(self, cons, e, isnull):
@@ -721,7 +761,7 @@ def run(tier="quick", mktable=False):
                     return None if r_ is None else self._add(cons, r_)
                 return GhostPos.refine(self, cons, cond, truth, blk)
         g9 = RecPos(fn, prog, self_index=None)
-        g9.run([Lin.sym("cnt")])
+        g9.run([Lin.sym("cnt"), Lin.sym("removed"), Lin.const(0) - Lin.sym("removed")])
         ends = []
 
         def v9(st, x, blk):
@@ -734,6 +774,8 @@ def run(tier="quick", mktable=False):
         for b_, st_ in outs:
             if not entails(list(st_), Lin.sym("found") - 1):
                 continue                       # the not-found exit (T4's subject)
+            if entails(list(st_), Lin.const(0) - Lin.sym("removed")):
+                continue                       # the count was never changed on the way here: no slot was taken out
             if entails(list(st_), Lin.sym("badmove") - 1):
                 bad9 = (b_, st_, "moves the wrong range")
                 break
